@@ -39,6 +39,8 @@ Section MruBridge.
   (* residual arithmetic (m_used_size += 1 for ++m_used_size, < 1 for == 0, ...) *)
   Ltac arith :=
     solve [ repeat match goal with
+                   | H : negb _ = true |- _ => apply Bool.negb_true_iff in H
+                   | H : negb _ = false |- _ => apply Bool.negb_false_iff in H
                    | H : (_ <? _) = true |- _ => apply Nat.ltb_lt in H
                    | H : (_ <? _) = false |- _ => apply Nat.ltb_ge in H
                    | H : (_ =? _) = true |- _ => apply Nat.eqb_eq in H
@@ -62,9 +64,9 @@ Section MruBridge.
   Lemma g_do_prune_ok (s : lrul K V) : req (g_do_prune s) (ll_do_prune s).
   Proof.
     unfold g_do_prune, ll_do_prune, bind.
-    destruct (0 <? ll_used s); [|simpl; auto].
-    destruct (l_back (ll_list s)) as [b|]; [|simpl; auto].
-    callee (g_do_erase_ok s b). crush; finish.
+    destruct (l_back (ll_list s)) as [b|] eqn:B.
+    - callee (g_do_erase_ok s b). crush; finish.
+    - crush; finish.
   Qed.
 
   Lemma index_erase_keeps_absent (ix ix' : list (K * nat)) it k :
